@@ -8,7 +8,7 @@ trap 'rm -rf "$S"' EXIT
 rsync -a --exclude .git /repo/ "$S/repo/"
 ( cd "$S/repo" && patch -p1 --no-backup-if-mismatch < "$PATCH" >/dev/null ) || { echo "SEEDEVAL patch failed"; exit 3; }
 export GOFLAGS=-mod=mod GOPROXY=off GOSUMDB=off GOTOOLCHAIN=local
-( cd "$S/repo" && go build ./... ) || { echo "SEEDEVAL build failed"; exit 4; }
+( cd "$S/repo" && go build -overlay /verif/overlay/overlay.json ./... ) || { echo "SEEDEVAL build failed"; exit 4; }
 ( cd "$S/repo" && go test -json -vet=off -count=1 -timeout 25m ./... > "$S/suite.json" 2>/dev/null )
 python3 - "$S/suite.json" <<'PY'
 import json,sys
